@@ -67,6 +67,8 @@ def scopes(quick, avoid_sim):
         ("alias", cfg_text("{1}" if quick else "{1, 14}", 4, 1, styles='{"plain"}' if quick else '{"plain", "single", "fold"}',
                            decor=2 if quick else 3, flags='{"cmp", "zi"}'), None),
     ]
+    # quoted / plain keys after empty values in a root mapping (5 nodes, block only)
+    out.append(("keys", cfg_text("{1, 3}", 5, 1, styles='{"plain", "double"}', coll='{"block"}', decor=0), None))
     if not quick:
         out.append(("styles4", cfg_text("{1, 3, 6, 13, 31, 11}", 4, 1), None))
         out.append(("words", cfg_text("{2, 4, 8, 14, 16, 26, 34, 36}", 3, 1, decor=1, breaks=br3), None))
@@ -96,6 +98,12 @@ def generate(ctx, quick, avoid_sim, parallel=3, workers=2):
     returns the path of the NDJSON file with all behaviours and their number."""
     from concurrent.futures import ThreadPoolExecutor
     sc = scopes(quick, avoid_sim)
+    path = ctx.path("behaviours.ndjson")
+    if os.environ.get("VERIF_DEV_REUSE") and os.path.exists(path):
+        # development aid (mutation testing): reuse the behaviours TLC generated in the previous run
+        n = sum(1 for _ in open(path))
+        ctx.stage("generate (reused)", 0.0, behaviours=n)
+        return path, n
 
     def one(arg):
         i, (name, cfg, sim) = arg
@@ -116,7 +124,6 @@ def generate(ctx, quick, avoid_sim, parallel=3, workers=2):
             raise vlib.ToolError("scope %s generated no behaviours:\n%s" % (name, r.out[-2000:]))
         return name, sim, r, lines
 
-    path = ctx.path("behaviours.ndjson")
     total = 0
     with ThreadPoolExecutor(max_workers=parallel) as ex:
         results = list(ex.map(one, enumerate(sc)))
@@ -162,13 +169,16 @@ def report_mismatches(ctx, mpath, stages, limit=8):
 
 def schema_stage(ctx):
     q = ctx.quick
-    r = vlib.model_check(ctx, "Gen_YamlCoreSchema.tla",
-                         "Gen_YamlCoreSchema_quick.cfg" if q else "Gen_YamlCoreSchema_thorough.cfg", workers=6, timeout=3000)
-    lines = replay_lines(r)
     p = ctx.path("schema.ndjson")
-    with open(p, "w") as f:
-        for ln in lines:
-            f.write(ln + "\n")
+    if os.environ.get("VERIF_DEV_REUSE") and os.path.exists(p):
+        lines = open(p).read().splitlines()
+    else:
+        r = vlib.model_check(ctx, "Gen_YamlCoreSchema.tla",
+                             "Gen_YamlCoreSchema_quick.cfg" if q else "Gen_YamlCoreSchema_thorough.cfg", workers=6, timeout=3000)
+        lines = replay_lines(r)
+        with open(p, "w") as f:
+            for ln in lines:
+                f.write(ln + "\n")
     b = vlib.harness_bin("c14")
     mp = ctx.path("schema-mismatches.ndjson")
     rc, out, wall = vlib.sh([b, "schema", p, mp], timeout=900)
@@ -219,8 +229,9 @@ def run(ctx):
     q = ctx.quick
     # model stage: the grammar's own invariants on every reachable state (also checked on the
     # "styles" generation scope below, which runs with INVARIANT Inv)
-    vlib.model_check(ctx, "MC_YamlPresentation.tla", "MC_YamlPresentation_quick.cfg" if q else "MC_YamlPresentation_thorough.cfg",
-                     workers=6, timeout=3000)
+    if not os.environ.get("VERIF_DEV_REUSE"):
+        vlib.model_check(ctx, "MC_YamlPresentation.tla", "MC_YamlPresentation_quick.cfg" if q else "MC_YamlPresentation_thorough.cfg",
+                         workers=6, timeout=3000)
     nstr = schema_stage(ctx)
     path, total = generate(ctx, q, '{"K1", "K2"}')
     b = vlib.harness_bin("c14")
